@@ -110,5 +110,14 @@ package object
 //@   ensures [size-consistent] {C01,C19} err == nil ==> o != nil && o.Size == len(o.Data)
 //@   ensures [hash==requested] {C19,C01} err == nil ==> string(o.Hash) == string(hash)
 //@   ensures [absent] {C01} isAbsent(fs, objPath(rootGoitPath, hash)) ==> err != nil
-//@   ensures [fresh] err == nil ==> fresh(o)
 //@   ensures [nil] err != nil ==> o == nil
+
+// ---- commits
+
+//@ func NewCommit
+//@   returns c, err
+//@   modifies $rdpos, $screst, $sctok
+//@   requires [obj] o != nil
+//@   ensures [result] {C02,C12,C14,C19} err == nil ==> c != nil && fresh(c) && c.Object == o
+//@   ensures [nil] err != nil ==> c == nil
+//@   ensures [kind] {C19} o.Type != CommitObject ==> err != nil
